@@ -431,5 +431,5 @@ Example demo_run :
   /\ option_map (fun b => (log b, regat b, unsubd b)) (cbs s 1) = Some ([(12, 0); (1, 4)]%N, 1, true).
 Proof.
   vm_compute. split; [|repeat split; reflexivity].
-  intros t Ht. do 5 (destruct t as [|t]; [reflexivity|]). exfalso. repeat (apply Nat.succ_lt_mono in Ht || apply Nat.nlt_0_r in Ht); auto.
+  intros t Ht. do 5 (destruct t as [|t]; [reflexivity|]). exfalso. lia.
 Qed.
